@@ -29,8 +29,8 @@ from harness.verdict import Run
 
 def r1(run, tier):
     os.makedirs(tlc.WORK, exist_ok=True)
-    out_t = os.path.join(tlc.WORK, "c02-table.ndjson")
-    out_b = os.path.join(tlc.WORK, "c02-levelb.ndjson")
+    out_t = os.path.join(tlc.WORK, "c02-table-%d.ndjson" % os.getpid())
+    out_b = os.path.join(tlc.WORK, "c02-levelb-%d.ndjson" % os.getpid())
     for p in (out_t, out_b):
         if os.path.exists(p):
             os.unlink(p)
